@@ -1683,7 +1683,10 @@ namespace awkward {
 
       ContentPtrVec contents;
       for (auto content : contents_) {
-        contents.push_back(content.get()->getitem_next(head,
+        // a field may hold more items than there are records: negative
+        // indexes, array lengths and bounds must refer to the records
+        ContentPtr trimmed = content.get()->getitem_range_nowrap(0, length());
+        contents.push_back(trimmed.get()->getitem_next(head,
                                                        emptytail,
                                                        advanced));
       }
